@@ -140,7 +140,12 @@ def _prove_nonneg(fname, fs, muts, d_lin, exprs, at):
 def rule_T1(ctx, prog, label, rule='T1'):
     rr = RuleResult(rule, 'triangular operands of the TRSM family are read only inside their named triangle: diagonal windows stay '
                           'triangular, in-triangle blocks are free, bit reads are coordinate-proved, everything else is a finding')
-    for fname, (pidx, orient) in sorted(FAMILY.items()):
+    work = sorted(FAMILY.items())
+    family = dict(FAMILY)
+    wi_ = 0
+    while wi_ < len(work):
+        fname, (pidx, orient) = work[wi_]
+        wi_ += 1
         f = prog.funcs.get(fname)
         if f is None or f.body is None:
             raise AnalysisBroken('T1: family member %s is missing' % fname)
@@ -277,10 +282,10 @@ def rule_T1(ctx, prog, label, rule='T1'):
                 a = p.kids[1:]
                 j = [i for i, x in enumerate(a) if any(y is n for y in x.walk())]
                 j = j[0] if j else None
-                if cn in FAMILY and FAMILY[cn][0] == j:
-                    ok = FAMILY[cn][1] == orient
+                if cn in family and family[cn][0] == j:
+                    ok = family[cn][1] == orient
                     rr.ob(ok, dict(function=fname, passes_to=cn, orientation=orient),
-                          Finding(rule, '%s|%s|orient|%s' % (rule, fname, cn), n.loc, fname, '%s-triangular operand is handed to %s, which reads the %s triangle' % (orient, cn, FAMILY[cn][1]), {}, label))
+                          Finding(rule, '%s|%s|orient|%s' % (rule, fname, cn), n.loc, fname, '%s-triangular operand is handed to %s, which reads the %s triangle' % (orient, cn, family[cn][1]), {}, label))
                     continue
                 if cn in EXTRACTORS and EXTRACTORS[cn][0] == j:
                     ok = EXTRACTORS[cn][1] == orient
@@ -329,6 +334,16 @@ def rule_T1(ctx, prog, label, rule='T1'):
                 g = prog.resolve(cn, f) if cn else None
                 if g is not None and j is not None and not _reads_data(prog, g, j):
                     rr.ob(True, dict(function=fname, passes_to=cn, reads='header only'))
+                    continue
+                if g is not None and j is not None and g.static and (g.file or '').endswith('.c') and g.file == f.file and j < len(g.params) and 'mzd_t' in (g.params[j].type or ''):
+                    # a file-local helper split off a family member (e.g. its base case): it joins the family with the same
+                    # orientation and is analysed like the others
+                    if cn not in family:
+                        family[cn] = (j, orient)
+                        work.append((cn, (j, orient)))
+                    ok_o = family[cn] == (j, orient)
+                    rr.ob(ok_o, dict(function=fname, passes_to=cn, orientation=orient, joined='file-local helper'),
+                          Finding(rule, '%s|%s|orient|%s' % (rule, fname, cn), n.loc, fname, 'the file-local helper %s receives triangular operands of both orientations' % cn, {}, label))
                     continue
                 bad(n, 'is handed to %s(), which reads its whole argument (the opposite triangle may hold arbitrary data)' % cn, 'consumer|%s' % cn)
                 continue
